@@ -34,39 +34,63 @@ pub enum Node {
     Number(Decimal),
 }
 
-fn gamma(a: Decimal) -> Decimal {
+// None when an intermediate result leaves the range of Decimal.
+fn gamma(a: Decimal) -> Option<Decimal> {
     let mut s = Decimal::new(2485740891387535655, 27);
     if a < Decimal::new(5, 1) {
-        s += Decimal::new(1051423785817219742, 20) / (Decimal::new(1, 0) - a);
-        s += Decimal::new(-3456870972220162354, 22) / (Decimal::new(2, 0) - a);
-        s += Decimal::new(4512277094668948237, 20) / (Decimal::new(3, 0) - a);
-        s += Decimal::new(-2982852253235766557, 22) / (Decimal::new(4, 0) - a);
-        s += Decimal::new(1056397115771267131, 22) / (Decimal::new(5, 0) - a);
-        s += Decimal::new(-1954287731916458696, 23) / (Decimal::new(6, 0) - a);
-        s += Decimal::new(1709705434044412243, 24) / (Decimal::new(7, 0) - a);
-        s += Decimal::new(-5719261174043057813, 24) / (Decimal::new(8, 0) - a);
-        s += Decimal::new(4633994733599056367, 28) / (Decimal::new(9, 0) - a);
-        s += Decimal::new(-2719949084886077, 28) / (Decimal::new(10, 0) - a);
-        let compute_sin = (Decimal::new(3141592653589793238, 18) * a).sin(); // 3.14159265358979323846264338327950288419716939937510582
-        let compute_pow = ((a - Decimal::new(10400511, 6)) / Decimal::new(2718281828459045235, 18))
-            .powd(Decimal::new(5, 1) - a);
-        Decimal::new(3141592653589793238, 18)
-            / (compute_sin * s * Decimal::new(1860382734205265717, 18) * compute_pow)
+        s = s.checked_add(Decimal::new(1051423785817219742, 20).checked_div(Decimal::new(1, 0).checked_sub(a)?)?)?;
+        s = s.checked_add(Decimal::new(-3456870972220162354, 22).checked_div(Decimal::new(2, 0).checked_sub(a)?)?)?;
+        s = s.checked_add(Decimal::new(4512277094668948237, 20).checked_div(Decimal::new(3, 0).checked_sub(a)?)?)?;
+        s = s.checked_add(Decimal::new(-2982852253235766557, 22).checked_div(Decimal::new(4, 0).checked_sub(a)?)?)?;
+        s = s.checked_add(Decimal::new(1056397115771267131, 22).checked_div(Decimal::new(5, 0).checked_sub(a)?)?)?;
+        s = s.checked_add(Decimal::new(-1954287731916458696, 23).checked_div(Decimal::new(6, 0).checked_sub(a)?)?)?;
+        s = s.checked_add(Decimal::new(1709705434044412243, 24).checked_div(Decimal::new(7, 0).checked_sub(a)?)?)?;
+        s = s.checked_add(Decimal::new(-5719261174043057813, 24).checked_div(Decimal::new(8, 0).checked_sub(a)?)?)?;
+        s = s.checked_add(Decimal::new(4633994733599056367, 28).checked_div(Decimal::new(9, 0).checked_sub(a)?)?)?;
+        s = s.checked_add(Decimal::new(-2719949084886077, 28).checked_div(Decimal::new(10, 0).checked_sub(a)?)?)?;
+        let compute_sin = Decimal::new(3141592653589793238, 18).checked_mul(a)?.checked_sin()?; // 3.14159265358979323846264338327950288419716939937510582
+        let compute_pow = a
+            .checked_sub(Decimal::new(10400511, 6))?
+            .checked_div(Decimal::new(2718281828459045235, 18))?
+            .checked_powd(Decimal::new(5, 1).checked_sub(a)?)?;
+        Decimal::new(3141592653589793238, 18).checked_div(
+            compute_sin
+                .checked_mul(s)?
+                .checked_mul(Decimal::new(1860382734205265717, 18))?
+                .checked_mul(compute_pow)?,
+        )
     } else {
-        s += Decimal::new(1051423785817219742, 20) / a;
-        s += Decimal::new(-3456870972220162354, 22) / (a + Decimal::new(1, 0));
-        s += Decimal::new(4512277094668948237, 20) / (a + Decimal::new(2, 0));
-        s += Decimal::new(-2982852253235766557, 22) / (a + Decimal::new(3, 0));
-        s += Decimal::new(1056397115771267131, 22) / (a + Decimal::new(4, 0));
-        s += Decimal::new(-1954287731916458696, 23) / (a + Decimal::new(5, 0));
-        s += Decimal::new(1709705434044412243, 24) / (a + Decimal::new(6, 0));
-        s += Decimal::new(-5719261174043057813, 24) / (a + Decimal::new(7, 0));
-        s += Decimal::new(4633994733599056367, 28) / (a + Decimal::new(8, 0));
-        s += Decimal::new(-2719949084886077, 28) / (a + Decimal::new(9, 0));
-        let compute_pow = ((a + Decimal::new(10400511, 6)) / Decimal::new(2718281828459045235, 18))
-            .powd(a - Decimal::new(5, 1));
-        s * Decimal::new(1860382734205265717, 18) * compute_pow
+        s = s.checked_add(Decimal::new(1051423785817219742, 20).checked_div(a)?)?;
+        s = s.checked_add(Decimal::new(-3456870972220162354, 22).checked_div(a.checked_add(Decimal::new(1, 0))?)?)?;
+        s = s.checked_add(Decimal::new(4512277094668948237, 20).checked_div(a.checked_add(Decimal::new(2, 0))?)?)?;
+        s = s.checked_add(Decimal::new(-2982852253235766557, 22).checked_div(a.checked_add(Decimal::new(3, 0))?)?)?;
+        s = s.checked_add(Decimal::new(1056397115771267131, 22).checked_div(a.checked_add(Decimal::new(4, 0))?)?)?;
+        s = s.checked_add(Decimal::new(-1954287731916458696, 23).checked_div(a.checked_add(Decimal::new(5, 0))?)?)?;
+        s = s.checked_add(Decimal::new(1709705434044412243, 24).checked_div(a.checked_add(Decimal::new(6, 0))?)?)?;
+        s = s.checked_add(Decimal::new(-5719261174043057813, 24).checked_div(a.checked_add(Decimal::new(7, 0))?)?)?;
+        s = s.checked_add(Decimal::new(4633994733599056367, 28).checked_div(a.checked_add(Decimal::new(8, 0))?)?)?;
+        s = s.checked_add(Decimal::new(-2719949084886077, 28).checked_div(a.checked_add(Decimal::new(9, 0))?)?)?;
+        let compute_pow = a
+            .checked_add(Decimal::new(10400511, 6))?
+            .checked_div(Decimal::new(2718281828459045235, 18))?
+            .checked_powd(a.checked_sub(Decimal::new(5, 1))?)?;
+        s.checked_mul(Decimal::new(1860382734205265717, 18))?
+            .checked_mul(compute_pow)
     }
+}
+
+// One Halley iteration for w * e^w = x; None when an intermediate result leaves the range of Decimal.
+fn halley_step(w: Decimal, x: Decimal) -> Option<Decimal> {
+    let one = Decimal::new(1, 0);
+    let two = Decimal::new(2, 0);
+    let exp_w = w.checked_exp()?;
+    let f = w.checked_mul(exp_w)?.checked_sub(x)?;
+    let correction = w
+        .checked_add(two)?
+        .checked_mul(f)?
+        .checked_div(two.checked_mul(w)?.checked_add(two)?)?;
+    let denominator = exp_w.checked_mul(w.checked_add(one)?)?.checked_sub(correction)?;
+    w.checked_sub(f.checked_div(denominator)?)
 }
 
 fn checked(value: Option<Decimal>) -> Result<Decimal, Box<dyn error::Error>> {
@@ -109,7 +133,7 @@ pub fn eval(expr: Node) -> Result<Decimal, Box<dyn error::Error>> {
             let sub_result = eval(*sub_expr)?;
             if sub_result >= Decimal::ZERO {
                 if (sub_result % Decimal::new(1, 0)) > Decimal::ZERO {
-                    Ok(gamma(sub_result + Decimal::new(1, 0)))
+                    checked(gamma(checked(sub_result.checked_add(Decimal::new(1, 0)))?))
                 } else {
                     let mut factorial_result = Decimal::new(1, 0);
                     let n = match sub_result.to_i64() {
@@ -124,7 +148,7 @@ pub fn eval(expr: Node) -> Result<Decimal, Box<dyn error::Error>> {
             } else if (sub_result % Decimal::new(1, 0)) == Decimal::ZERO {
                 return Err("The factorial function is not defined for {}.".into());
             } else {
-                Ok(gamma(sub_result + Decimal::new(1, 0)))
+                checked(gamma(checked(sub_result.checked_add(Decimal::new(1, 0)))?))
             }
         }
         LambertW(expr) => {
@@ -138,11 +162,7 @@ pub fn eval(expr: Node) -> Result<Decimal, Box<dyn error::Error>> {
                 .unwrap_or(4);
             let mut w = Decimal::ZERO;
             for _ in 0..iterations {
-                let exp_w = w.exp();
-                w -= (w * exp_w - sub_expr)
-                    / (exp_w * (w + Decimal::new(1, 0))
-                        - (w + Decimal::new(2, 0)) * (w * exp_w - sub_expr)
-                            / (Decimal::new(2, 0) * w + Decimal::new(2, 0)));
+                w = checked(halley_step(w, sub_expr))?;
             }
             Ok(w)
         }
